@@ -506,15 +506,33 @@ class Unit:
         # index map over the whitespace-free body
         idx = [i for i, ch in enumerate(t) if not ch.isspace()]
         flat = ''.join(t[i] for i in idx)
-        p = flat.find(pat)
-        if p < 0:
-            raise ExtractError('%s: lost anchor: outlined expression `%s` not found' % (key, norm_ws(expr)[:80]))
-        if flat.find(pat, p + 1) >= 0 and o.fields.get('all') is None:
-            pass
-        a, b = idx[p], idx[p + len(pat) - 1] + 1
         call = o.fields.get('call')
         if call is None:
             raise ExtractError('%s: outline %s has no call' % (key, o.name))
+        holes = re.findall(r'\$(\w+)', pat)
+        if holes:
+            # E7 with operand holes: `$x` in `expr:` matches one operand (an identifier or field path); the same `$x` in
+            # `call:` is replaced by the matched text, and the helper body is the idiom with the operands renamed to the
+            # helper's parameters `x`.  The assumed `ensures` is then a statement about the idiom for ARBITRARY operands, and
+            # exchanging/renaming operands in the source stays decidable (it changes the call, not the assumed helper).
+            if len(set(holes)) != len(holes):
+                raise ExtractError('%s: outline %s: a hole may occur only once in expr' % (key, o.name))
+            rx = re.escape(pat)
+            for h in sorted(holes, key=len, reverse=True):
+                rx = rx.replace(re.escape('$' + h), r'(?P<%s>[A-Za-z_][\w.]*)' % h, 1)
+            m = re.search(rx, flat)
+            if not m or (idx[m.start()] > 0 and (t[idx[m.start()] - 1].isalnum() or t[idx[m.start()] - 1] in '_.')):
+                raise ExtractError('%s: lost anchor: outlined expression `%s` not found' % (key, norm_ws(expr)[:80]))
+            p, plen = m.start(), m.end() - m.start()
+            for h in sorted(holes, key=len, reverse=True):
+                call = call.replace('$' + h, m.group(h))
+            o.body = re.sub(r'\$(\w+)', r'\1', expr)
+            self.rule('E7.outlined_idiom_operand_holes')
+        else:
+            p, plen = flat.find(pat), len(pat)
+            if p < 0:
+                raise ExtractError('%s: lost anchor: outlined expression `%s` not found' % (key, norm_ws(expr)[:80]))
+        a, b = idx[p], idx[p + plen - 1] + 1
         self.rule('E7.outlined_idiom')
         meta['rules'].append('E7:' + o.name)
         o.original = t[a:b]
@@ -531,7 +549,7 @@ class Unit:
                 txt += '\n    requires %s' % req.strip().rstrip(',') + ','
             if ens:
                 txt += '\n    ensures %s' % ens.strip().rstrip(',') + ','
-            txt += '\n{ %s }' % getattr(o, 'original', o.fields['expr'])
+            txt += '\n{ %s }' % (getattr(o, 'body', None) or getattr(o, 'original', o.fields['expr']))
             out.append(txt)
         return '\n'.join(out)
 
